@@ -1,6 +1,6 @@
 (* front end for the extracted resize model (C08):
    G ss ss2 bb0 bb1 dpb rgdt f bpg bs ipg ibpg blocks  -> OK B G db | TOOSMALL | TOOMANY | FUEL
-   P <string over E (sb write, error flag set) C (sb write, flag clear) O (other write) F (sync)> -> 1 | 0 *)
+   P <string over E (sb write, error flag set) C (sb write, flag clear) O (other write inside the old extent) N (other write beyond it) F (sync)> -> 1 | 0 *)
 open Resize_model
 let rec pos_of_int i = if i = 1 then XH else if i land 1 = 0 then XO (pos_of_int (i lsr 1)) else XI (pos_of_int (i lsr 1))
 let n_of_int i = if i = 0 then N0 else Npos (pos_of_int i)
@@ -26,7 +26,7 @@ let () =
       let s = if Array.length t > 1 then t.(1) else "" in
       let l = ref [] in
       for i = String.length s - 1 downto 0 do
-        l := (match s.[i] with 'E' -> WSb true | 'C' -> WSb false | 'O' -> WOther | _ -> Sync) :: !l
+        l := (match s.[i] with 'E' -> WSb true | 'C' -> WSb false | 'O' -> WOther true | 'N' -> WOther false | _ -> Sync) :: !l
       done;
       print_endline (if protocol_check !l then "1" else "0")
     | _ -> print_endline "?"
